@@ -36,8 +36,14 @@ pub fn cases(thorough: bool, seed: u64) -> Vec<Params> {
                 for a in 0..nsub {
                     out.push(Params { n, t, ids: ids.clone(), subset: s.clone(), variant: V_SUBST, aux: a, seed });
                 }
-                for a in 0..6u64 {
-                    out.push(Params { n, t, ids: ids.clone(), subset: s.clone(), variant: V_SIGNER, aux: a, seed });
+                // signer-side refusals: kind | position of the signer in the set << 8
+                for pos in 0..k {
+                    if !thorough && pos != 0 && pos != k - 1 {
+                        continue;
+                    }
+                    for a in 0..9u64 {
+                        out.push(Params { n, t, ids: ids.clone(), subset: s.clone(), variant: V_SIGNER, aux: a | (pos << 8), seed });
+                    }
                 }
                 for a in 0..(2 * k) {
                     out.push(Params { n, t, ids: ids.clone(), subset: s.clone(), variant: V_IDENTITY, aux: a, seed });
@@ -159,10 +165,13 @@ pub fn run<C: Ciphersuite, L: Lab<C>>(lab: &mut L, p: &Params) {
         }
         V_SIGNER => {
             lab.enter("signer-refusals");
-            let me = a.signers[0];
+            let pos = (p.aux >> 8) as usize;
+            let me = a.signers[pos % k];
+            // "another signer": the next one in the set (cyclically)
+            let other_signer = a.signers[(pos + 1) % k];
             let (mine_a, mine_b) = (a.commitments[&me], b.commitments[&me]);
             let base = a.commitments.clone();
-            let (pkg, what, want): (fc::SigningPackage<C>, &str, &str) = match p.aux {
+            let (pkg, what, want): (fc::SigningPackage<C>, &str, &str) = match p.aux & 0xff {
                 0 => {
                     let mut m = base.clone();
                     m.remove(&me);
@@ -181,14 +190,40 @@ pub fn run<C: Ciphersuite, L: Lab<C>>(lab: &mut L, p: &Params) {
                     lab.assume_ne_e(x, mine_a.hiding().value(), "the substituted commitment differs");
                     (fc::SigningPackage::new(with_entry(&base, me, SigningCommitments::new(NonceCommitment::new(x), *mine_a.binding())), &ma), "hiding commitment of the own entry is an arbitrary other element", "IncorrectCommitment")
                 }
-                _ => {
-                    // own entry swapped with another signer's
+                5 => {
+                    // own entry carries another signer's commitments
                     if k < 2 {
                         lab.leave();
                         return;
                     }
-                    let other = a.signers[1];
-                    (fc::SigningPackage::new(with_entry(&base, me, base[&other]), &ma), "own entry carries another signer's commitments", "IncorrectCommitment")
+                    (fc::SigningPackage::new(with_entry(&base, me, base[&other_signer]), &ma), "own entry carries another signer's commitments", "IncorrectCommitment")
+                }
+                6 => {
+                    // the commitments of the nonces in use are in the package — under another signer's identifier
+                    if k < 2 {
+                        lab.leave();
+                        return;
+                    }
+                    let m = with_entry(&with_entry(&base, me, mine_b), other_signer, mine_a);
+                    (fc::SigningPackage::new(m, &ma), "own entry is the concurrent session's, the true commitments sit in another signer's slot", "IncorrectCommitment")
+                }
+                7 => {
+                    // two entries exchanged
+                    if k < 2 {
+                        lab.leave();
+                        return;
+                    }
+                    let m = with_entry(&with_entry(&base, me, base[&other_signer]), other_signer, mine_a);
+                    (fc::SigningPackage::new(m, &ma), "own entry exchanged with another signer's", "IncorrectCommitment")
+                }
+                _ => {
+                    // own slot differs; the true commitments are filed under an additional participant
+                    let Some(extra) = ids.iter().find(|i| !a.signers.contains(i)).copied() else {
+                        lab.leave();
+                        return;
+                    };
+                    let m = with_entry(&with_entry(&base, me, mine_b), extra, mine_a);
+                    (fc::SigningPackage::new(m, &ma), "own entry differs, the true commitments are filed under an added participant", "IncorrectCommitment")
                 }
             };
             let m = lab.mark();
